@@ -134,6 +134,12 @@ func (r *upcastRegistry) apply(data json.RawMessage, eventType string) (json.Raw
 				upcaster.FromType, upcaster.ToType, err)
 		}
 
+		// A raw upcaster may return another type than its declared target: coming
+		// back to a type that was already processed would loop forever
+		if appliedTypes[newType] {
+			return data, eventType, fmt.Errorf("eventbus: upcast loop detected")
+		}
+
 		currentData = newData
 		currentType = newType
 	}
